@@ -264,7 +264,9 @@ func main() {
 			}
 		}
 		if r.exit != 0 {
-			if strings.Contains(r.stderr, "panic:") || strings.Contains(r.log, "panic:") || strings.Contains(r.stderr, "fatal error:") {
+			if isHarnessPanic(r.log + "\n" + r.stderr) {
+				trouble = append(trouble, fmt.Sprintf("worker %d: panic inside the harness (not the code under test):\n%s\n%s", w, tail(r.log, 40), tail(r.stderr, 40)))
+			} else if strings.Contains(r.stderr, "panic:") || strings.Contains(r.log, "panic:") || strings.Contains(r.stderr, "fatal error:") {
 				crashes = append(crashes, fmt.Sprintf("worker %d crashed:\n%s\n%s", w, tail(r.log, 60), tail(r.stderr, 60)))
 			} else {
 				trouble = append(trouble, fmt.Sprintf("worker %d exit %d:\n%s\n%s", w, r.exit, tail(r.log, 30), tail(r.stderr, 30)))
@@ -334,6 +336,27 @@ func main() {
 		die(2, "no runs executed")
 	}
 	os.Exit(exit)
+}
+
+// isHarnessPanic reports whether the innermost non-runtime frame of the panicking
+// goroutine is harness or simulator code (then the check is broken, not the property).
+func isHarnessPanic(out string) bool {
+	i := strings.Index(out, "panic:")
+	if i < 0 {
+		return false
+	}
+	lines := strings.Split(out[i:], "\n")
+	for k, l := range lines {
+		if !strings.HasPrefix(l, "\t") {
+			continue
+		}
+		// file line of a frame; the function name is on the line before
+		if k == 0 || strings.HasPrefix(lines[k-1], "panic(") || strings.Contains(l, "/runtime/") || strings.HasPrefix(lines[k-1], "runtime.") {
+			continue
+		}
+		return strings.Contains(l, "zz_verif_") || strings.Contains(l, "/internal/simrt/")
+	}
+	return false
 }
 
 func firstLine(s string) string {
